@@ -840,16 +840,19 @@ class EqCongurentMacro(Macro):
         elems = list(args)
         preds, concl = elems[:-1], elems[-1]
         args_pair = [(i, j) for i, j in zip(concl.lhs.strip_comb()[1], concl.rhs.strip_comb()[1])]
-        # preds_pair = [(i.arg.lhs, i.arg.rhs) for i in preds]
+        preds_pair = [(i.arg.lhs, i.arg.rhs) for i in preds]
         fun = concl.lhs.head
         pt0 = ProofTerm.reflexive(fun)
         pt_args_assms = []
         for pair in args_pair:
             r_pair = pair[::-1]
-            if pair in args_pair:
+            if pair in preds_pair:
                 pt_args_assms.append(ProofTerm.assume(Eq(*pair)))
-            elif r_pair in args_pair:
-                pt_args_assms.append(ProofTerm.assume(Eq(*r_pair)))
+            elif r_pair in preds_pair:
+                # the literal is ~(y_i = x_i): assume it in that form and turn it around
+                pt_args_assms.append(ProofTerm.assume(Eq(*r_pair)).symmetric())
+            else:
+                raise VeriTException("eq_congruent", "arguments are not equal")
 
         pt1 = functools.reduce(lambda x, y: x.combination(y), pt_args_assms, pt0)
         return ProofTerm("imp_to_or", elems[:-1]+[Or(*elems)], prevs=[pt1])
